@@ -128,7 +128,19 @@ def _seg_const(rng, n, amp):
     return [float(rng.randint(-amp, amp))] * n
 
 
-SEGS = [_seg_walk, _seg_walk, _seg_zigzag, _seg_monotone, _seg_extremes, _seg_float, _seg_const]
+def _seg_decay(rng, n, amp):
+    """A decaying (or growing) oscillation: every half wave stays open, the residual stack gets as deep as the segment is long."""
+    out = []
+    sign = rng.choice([-1, 1])
+    grow = rng.random() < 0.3
+    for k in range(n):
+        a = (k + 1) if grow else (n - k)
+        out.append(float(sign * a) * 0.5)
+        sign = -sign
+    return out
+
+
+SEGS = [_seg_walk, _seg_walk, _seg_zigzag, _seg_monotone, _seg_extremes, _seg_float, _seg_const, _seg_decay]
 
 
 def gen_signal(rng, min_len=1, max_len=80):
@@ -191,9 +203,13 @@ def gen_signal(rng, min_len=1, max_len=80):
     elif r < 0.2:
         # number representation: decimal grids (equal values, equal ranges, but no exact binary/float32
         # representation), magnitudes beyond 2**24, strain-like tiny amplitudes
-        kind = rng.choice(["decimal", "decimal", "big", "tiny", "pa", "ultra"])
+        kind = rng.choice(["decimal", "decimal", "decimal_prefix", "big", "tiny", "pa", "ultra"])
         if kind == "decimal":
             sig = [round(x) * 0.1 for x in sig]
+        elif kind == "decimal_prefix":
+            # the first part on a 0.1 grid (no float32 representation), the rest whole numbers (a re-scaled channel)
+            q = rng.randint(1, max(1, len(sig) - 1))
+            sig = [round(x) * 0.1 for x in sig[:q]] + [float(round(x)) for x in sig[q:]]
         elif kind == "big":
             sig = [float(2 ** 24 + round(x)) for x in sig] if rng.random() < 0.5 else [float(round(x)) * 100000001.0 for x in sig]
         elif kind == "tiny":
@@ -414,7 +430,7 @@ def generate(prop, rng, tier):
         det = rng.choice(["tp", "fp", "fkm"])
         reps.append({"det": det, "rec": rng.choice(["full", "full", "value", "probe", "lazy"]),
                      "cuts": gen_cuts(rng, sig),
-                     "container": rng.choice(["ndarray", "ndarray", "ndarray", "list", "series", "strided", "readonly", "int", "int", "f32"])})
+                     "container": rng.choice(["ndarray", "ndarray", "ndarray", "list", "series", "strided", "readonly", "int", "int", "f32", "mixed"])})
     order = []
     for r, rp in enumerate(reps):
         order += [r] * (len(rp["cuts"]) + 1)
@@ -434,6 +450,7 @@ def generate(prop, rng, tier):
     if prop == "C02":
         tr["spec_dtype"] = rng.choice([None, None, "int", "f32"])
         tr["scribble"] = rng.random() < 0.2
+    tr["refuse"] = rng.randint(1, 3) if rng.random() < 0.12 else 0
     if prop == "C01":
         tr["final_flush"] = rng.random() < 0.25
         tr["scribble"] = rng.random() < 0.3
@@ -489,6 +506,7 @@ def _execute(prop, trace):
         run_of += [j] * (b - a + 1)
     final_flush = bool(trace.get("final_flush"))
     scribble = bool(trace.get("scribble"))
+    refuse = int(trace.get("refuse") or 0)
 
     for r in order:
         st, rp = state[r], reps[r]
@@ -510,6 +528,14 @@ def _execute(prop, trace):
             chunk = wide[0::2]                 # a non-contiguous view
         elif cont == "readonly":
             chunk.setflags(write=False)        # e.g. a memory-mapped recording
+        elif cont == "mixed":
+            # every block in the narrowest float it fits in (float32 where exact, float64 otherwise)
+            with np.errstate(over="ignore", under="ignore"):
+                if np.array_equal(chunk.astype(np.float32).astype(np.float64), chunk):
+                    chunk = chunk.astype(np.float32)
+                    cont = "mixed:float32"
+                else:
+                    cont = "mixed:float64"
         elif cont in ("int", "f32"):
             # the same numbers in a narrower / integer dtype (ADC counts), only if they are representable
             dt = _narrow_dtype(sig, cont)
@@ -525,6 +551,17 @@ def _execute(prop, trace):
         out.steps += 1
         nb = len(st["bounds"]) - 1
         thin = n > 150 and not last and (st["k"] % max(1, nb // 8)) != 0     # long signals: a subset of the borders plus the end
+        if refuse and (st["k"] + r + refuse) % 3 == 0 and b - a >= 1:
+            # fault: the acquisition hands over a malformed block first (a column vector instead of a 1-D block);
+            # the detector refuses it with an exception, the caller catches it and delivers the proper block.
+            # A refused block must leave no trace.
+            bad = np.array(sig[a:b], dtype=np.float64).reshape(-1, 1)
+            if len(bad) > 1:
+                try:
+                    st["d"].process(bad)
+                    out.count("probe:malformed_block_accepted")
+                except Exception:       # noqa
+                    out.count("fault:refused_block")
         try:
             _feed(st["d"], chunk, flush)
             if scribble and cont == "ndarray":
@@ -821,6 +858,10 @@ def generate_c03(rng, tier):
         tr["twin_cuts"] = sorted(rng.random() for _ in range(rng.choice([1, 1, 2, 3, 6])))
         tr["reuse_buffer"] = rng.random() < 0.3
     tr["final_flush"] = rng.random() < 0.2      # both replicas end with flush=True
+    if kind == "nan":
+        tr["escalate"] = rng.random() < 0.4
+    elif rng.random() < 0.15:
+        tr["twin_mixed"] = True
     return tr
 
 
@@ -949,6 +990,29 @@ def execute_c03(trace):
                 bounds = [0] + cuts + [m]
                 for a_, b_ in zip(bounds[:-1], bounds[1:]):
                     fl = ff and b_ == m
+                    blk = twin_in.iloc[a_:b_] if isinstance(twin_in, pd.Series) else twin_in[a_:b_]
+                    if trace.get("escalate") and bool(np.isnan(np.asarray(blk, dtype=np.float64)).any()):
+                        # fault: the caller runs with warnings as errors; the NaN warning aborts the call, the
+                        # caller catches it and hands the same block over again with the warning tolerated.
+                        # The aborted call must leave no trace.
+                        with warnings.catch_warnings():
+                            warnings.simplefilter("error")
+                            try:
+                                d2.process(blk)
+                                out.count("probe:escalated_warning_not_raised")
+                            except UserWarning:
+                                out.count("fault:aborted_by_escalated_warning")
+                            except Exception as e:     # noqa
+                                raise RealCodeError("process", e)
+                    if not isinstance(twin_in, pd.Series) and trace.get("twin_mixed"):
+                        # every block in the narrowest float that holds it exactly
+                        with np.errstate(over="ignore", under="ignore", invalid="ignore"):
+                            b32 = np.asarray(blk, dtype=np.float64).astype(np.float32)
+                            if np.array_equal(b32.astype(np.float64), np.asarray(blk, dtype=np.float64), equal_nan=True):
+                                _feed(d2, b32, fl)
+                                out.count("container:block_float32")
+                                continue
+                        out.count("container:block_float64")
                     if isinstance(twin_in, pd.Series):
                         _feed(d2, twin_in.iloc[a_:b_], fl)
                     elif trace.get("reuse_buffer") and cuts:
@@ -1017,7 +1081,7 @@ def shrink(prop, trace):
             t = copy.deepcopy(trace)
             t["order"] = []
             yield t
-        for key in ("final_flush", "scribble"):
+        for key in ("final_flush", "scribble", "refuse"):
             if trace.get(key):
                 t = copy.deepcopy(trace)
                 t[key] = False
@@ -1045,10 +1109,11 @@ def shrink(prop, trace):
                 yield t
     else:
         tw = trace["twin"]
-        if trace.get("reuse_buffer"):
-            t = copy.deepcopy(trace)
-            t["reuse_buffer"] = False
-            yield t
+        for key in ("reuse_buffer", "escalate", "twin_mixed"):
+            if trace.get(key):
+                t = copy.deepcopy(trace)
+                t[key] = False
+                yield t
         if trace.get("twin_cuts"):
             t = copy.deepcopy(trace)
             t["twin_cuts"] = []
